@@ -26,6 +26,12 @@ import (
 var c19Alphabet = []string{"swap_batch_opposite_p1", "swap_in_2hop_elys_atom_L", "join_p1_all_t1", "exit_p2_half_lp1", "perp_open_long_t3_x5", "perp_bot_close_all", "llp_open_t2_x5", "price_atom_2",
 	"unbond_lp2_half", "mc_claim_lp1", "fee_tx_uatom", "burn_two_denoms", "gap_1h", "gap_8d", "claim_vesting_lp1", "ext_incentives_two_new_denoms_lp1"}
 
+var c19ListTraces = [][]string{
+	{"ts_spot_limitsell_met_own1", "ts_spot_limitbuy_met_own2", "ts_execute_all_bot"},
+	{"ts_perp_long_met_own1", "ts_perp_long_met_own2", "ts_execute_all_bot"},
+	{"ts_spot_limitsell_met_own1", "ts_spot_limitbuy_met_own2", "ts_cancel_everyones_by_own2"},
+}
+
 type c19Rec struct {
 	Hash string   `json:"hash"`
 	Tx   []string `json:"tx"`
@@ -161,6 +167,29 @@ func c19MakeWorker(tier string) KUnitFunc {
 				}
 			}
 			st.Sequences++
+		case "mapall":
+			if !HaveMapSeam {
+				st.HarnessErr = "map unit on a binary without the runtime seam"
+				return st
+			}
+			MapSeamReset()
+			zero, err := cw.run(u.Trace, -1, -1, func() { MapSeamSet(1, 0, 0) })
+			sites, _ := MapSeamSites()
+			st.Evaluations++
+			st.Extra["map_sites_seen"] = float64(len(sites))
+			if ok, why := recsEqual(ref, zero); err != nil || !ok {
+				bad("map_order_changes_result", "site=all(start 0 vs runtime random)", fmt.Sprintf("%s %v", why, err), "all_zero")
+			}
+			for alt := 1; alt <= u.Alts; alt++ {
+				alt := alt
+				got, err := cw.run(u.Trace, -1, -1, func() { MapSeamSet(2, 0, uintptr(alt)) })
+				st.Evaluations++
+				st.Clauses["map_all_sites_rotated"]++
+				if ok, why := recsEqual(ref, got); err != nil || !ok {
+					bad("map_order_changes_result", "site=all", fmt.Sprintf("every map iteration started at %d: %s %v", alt, why, err), fmt.Sprintf("all alt:%d", alt))
+				}
+			}
+			st.Sequences++
 		case "map":
 			if !HaveMapSeam {
 				st.HarnessErr = "map unit on a binary without the runtime seam"
@@ -260,6 +289,12 @@ func RunC19(tier string) int {
 		}
 		for _, tr := range mapTraces {
 			units = append(units, c19Unit{Kind: "map", Trace: tr, Alts: alts})
+			nMap++
+		}
+		// longer roads to code that handles a LIST of user-chosen ids in one message (two pending, triggerable
+		// orders of two owners, then one execute request naming both): every site together, rotated
+		for _, tr := range c19ListTraces {
+			units = append(units, c19Unit{Kind: "mapall", Trace: tr, Alts: alts})
 			nMap++
 		}
 	}
